@@ -436,6 +436,14 @@ Proof.
 Qed.
 
 (* ---------- every API call refines the reference step ---------- *)
+Lemma arr_abs_pad (cells pad : list Z) off cnt :
+  off + cnt <= length cells ->
+  firstn cnt (skipn off (cells ++ pad)) = firstn cnt (skipn off cells).
+Proof.
+  intros H. rewrite skipn_app, firstn_app, skipn_length.
+  replace (cnt - (length cells - off)) with 0 by lia. cbn [firstn]. apply app_nil_r.
+Qed.
+
 Lemma list_snoc_cases {A} (l : list A) : l = [] \/ exists r z, l = r ++ [z].
 Proof.
   destruct l as [|x l]; [left; reflexivity|]. right.
@@ -497,7 +505,7 @@ Theorem arr_step_refines ok a o : arr_inv_full a -> arr_step_ok ok a o.
 Proof.
   intros Hinv. unfold arr_step_ok.
   pose proof (arr_abs_length a Hinv) as Hlen.
-  destruct o as [idx v | v | v | idx | | | idx | | | ]; cbn [arr_step aspec_step arr_op_is_insert].
+  destruct o as [idx v | v | v | idx | | | idx | | | | n]; cbn [arr_step aspec_step arr_op_is_insert].
   - (* insert_at *)
     pose proof (arr_step_insert ok a idx v Hinv) as H.
     destruct (arr_res_ins a (arr_insertdata_at ok a idx v)) as [a' r].
@@ -561,6 +569,37 @@ Proof.
       destruct r0; reflexivity.
   - (* len *)
     split; [exact Hinv|]. left. unfold arr_len. rewrite Hlen. auto.
+  - (* set_size *)
+    rewrite Hlen.
+    destruct (Nat.eqb n 0 || Nat.ltb n (a_cnt a)) eqn:Eg.
+    + unfold arr_set_size. rewrite Eg. cbn [arr_res_ins]. split; [exact Hinv|]. left. auto.
+    + apply orb_false_iff in Eg. destruct Eg as [En0 Enc].
+      apply Nat.eqb_neq in En0. apply Nat.ltb_ge in Enc.
+      destruct (arr_set_size_spec ok a n) as [[k [E Hk]] | [Eok E]]; [lia | lia | |].
+      * rewrite E. cbn [arr_res_ins]. destruct Hinv as [Hroom Hzero].
+        unfold arr_inv_full, arr_abs, alloc_cnt in *. cbn [a_cells a_cnt a_off].
+        split; [split; [len_norm; lia | exact Hzero]|]. left. split; [reflexivity|].
+        apply arr_abs_pad. exact Hroom.
+      * rewrite E. cbn [arr_res_ins]. split; [exact Hinv|]. right. auto.
+Qed.
+
+(* ares_array_finish hands out exactly the members, in order *)
+Theorem arr_finish_refines a : arr_inv_full a -> arr_finish a = Ok (arr_abs a).
+Proof.
+  intros [Hroom Hzero]. unfold arr_finish.
+  destruct a as [cells cnt off]. unfold alloc_cnt, arr_abs in *. cbn [a_cells a_cnt a_off] in *.
+  destruct (Nat.eqb_spec off 0) as [E0|N0].
+  - subst off. cbn [negb bind a_cells a_cnt skipn]. unfold alloc_cnt. cbn [a_cells].
+    rewrite (proj2 (Nat.ltb_ge _ _)) by lia. reflexivity.
+  - cbn [negb].
+    assert (cnt <> 0) as Hc by (intros Hc0; specialize (Hzero Hc0); lia).
+    destruct (split3 cells off cnt Hroom) as [pre [mem [post [Ec [Hpre [Hmem Hm]]]]]].
+    assert (mem <> []) as Hne by (intros ->; simpl in Hmem; lia).
+    destruct (arr_move_front pre mem post Hne) as [cells' [Em [HL' Hf]]].
+    rewrite <- Hm. clear Hm. subst cells off cnt.
+    rewrite Em. cbn [bind a_cells a_cnt]. unfold alloc_cnt. cbn [a_cells a_cnt].
+    rewrite (proj2 (Nat.ltb_ge _ _)) by (rewrite HL'; len_norm; lia).
+    rewrite Hf. reflexivity.
 Qed.
 
 (* ---------- lifted to operation sequences ---------- *)
@@ -666,3 +705,13 @@ Example arr_run_example :
      [RStatus 0; RStatus 0; RStatus 0; RStatus 0; RRemoved 1; RRemoved 2; RRemoved 3; RRemoved 4;
       RStatus 0; RStatus 0; RStatus 0; RRemoved 7; RVal (Some 5)]%Z).
 Proof. vm_compute. reflexivity. Qed.
+
+Theorem arr_run_finish ops :
+  arr_finish (fst (arr_run arr_create (map (fun o => (true, o)) ops))) = Ok (fst (aspec_run [] ops)).
+Proof.
+  pose proof (arr_run_refines_from arr_create ops (proj1 arr_create_inv)) as H.
+  rewrite (proj2 arr_create_inv) in H.
+  destruct (arr_run arr_create (map (fun o => (true, o)) ops)) as [a' rs].
+  destruct (aspec_run [] ops) as [l' rs'].
+  destruct H as [Hinv [_ Habs]]. cbn [fst]. rewrite <- Habs. apply arr_finish_refines. exact Hinv.
+Qed.
